@@ -257,6 +257,10 @@ package wire
 
 //@ func (*injectorGen).funcProviderCall
 //@   requires c.pkg != nil && injectSig.out != nil && argsInRange(ig, c)
+//@   requires [C14] namesOK(ig) && len(ig.localNames) > 0 && ig.localNames[len(ig.localNames) - 1] == lname
+//@   ensures [C14] namesOK(ig)
+//@   loop 1 invariant [C14] namesOK(ig)
+//@   loop 2 invariant [C14] namesOK(ig)
 //@   modifies ig.cleanupNames, OUTLEN[&ig.g.buf], OUTEV[&ig.g.buf], mapof(ig.g.imports)
 //@   ensures [C03,C04] c.hasCleanup ==> len(ig.cleanupNames) == len(old(ig.cleanupNames)) + 1 && (forall j :: 0 <= j && j < len(old(ig.cleanupNames)) ==> ig.cleanupNames[j] == old(ig.cleanupNames)[j])
 //@   ensures [C03,C04] !c.hasCleanup ==> ig.cleanupNames == old(ig.cleanupNames)
@@ -292,6 +296,11 @@ package wire
 //@ define sigErr(sig *types.Signature) = (sig.Results().Len() == 2 && isErrT(sig.Results().At(1).Type())) || sig.Results().Len() == 3
 //@ define wfCalls(calls []call, n int) = forall k :: 0 <= k && k < len(calls) ==> 0 <= calls[k].kind && calls[k].kind <= 3 && calls[k].out != nil && (calls[k].kind <= 1 ==> calls[k].pkg != nil) && (calls[k].kind == 1 ==> len(calls[k].fieldNames) == len(calls[k].args)) && (calls[k].kind == 3 ==> len(calls[k].args) >= 1) && (calls[k].kind == 2 ==> calls[k].valueTypeInfo != nil && calls[k].valueExpr != nil) && (forall j :: 0 <= j && j < len(calls[k].args) ==> 0 <= calls[k].args[j] && calls[k].args[j] < n + k)
 //@ define distinctNames(names []string) = forall a, b :: 0 <= a && a < b && b < len(names) ==> names[a] != names[b]
+// C14: every name wire invents inside an injector (parameter, local, cleanup, error variable) is
+// different from every other one.
+//@ define disjointNames(xs []string, ys []string) = forall a, b :: 0 <= a && a < len(xs) && 0 <= b && b < len(ys) ==> xs[a] != ys[b]
+//@ define notIn(xs []string, n string) = forall a :: 0 <= a && a < len(xs) ==> xs[a] != n
+//@ define namesOK(ig *injectorGen) = distinctNames(ig.paramNames) && distinctNames(ig.localNames) && distinctNames(ig.cleanupNames) && disjointNames(ig.paramNames, ig.localNames) && disjointNames(ig.paramNames, ig.cleanupNames) && disjointNames(ig.localNames, ig.cleanupNames) && notIn(ig.paramNames, ig.errVar) && notIn(ig.localNames, ig.errVar) && notIn(ig.cleanupNames, ig.errVar)
 
 // C12: a struct provider is emitted as one composite literal (of the struct, or its address) whose
 // keyed elements are exactly the call's field names, each set from the slot of its argument; a field
@@ -347,6 +356,10 @@ package wire
 //@   loop 3 invariant len(ig.paramNames) == sig.Params().Len() && len(ig.localNames) == done
 //@   loop 3 invariant [C04] ig.discard ==> OUTLEN[&ig.g.buf] == old(OUTLEN[&ig.g.buf])
 //@   loop 3 invariant [C04,C14] distinctNames(ig.cleanupNames)
+//@   loop 2 invariant [C14] namesOK(ig)
+//@   loop 3 invariant [C14] namesOK(ig)
+//@   loop 4 invariant [C14] namesOK(ig)
+//@   ensures [C14] namesOK(ig)
 //@   loop 4 invariant 0 - 1 <= i && i < len(ig.cleanupNames)
 //@   loop 4 invariant [C04] ig.discard ==> OUTLEN[&ig.g.buf] == old(OUTLEN[&ig.g.buf])
 //@   loop 4 invariant [C04,C14] distinctNames(ig.cleanupNames)
